@@ -53,7 +53,19 @@ def run(ctx):
             hist.append(('S', f))
             if rng.random() < 0.3:
                 hist.append(('W',))
-        c, _ = corrsim.apply_real(c0, hist)
+        # the centre scale is read at every stage of the history (as match2ref does), so a value
+        # cached at one stage would be seen at the next
+        c = c0.copy()
+        _ = c.tanp_center_pixel_scale
+        for h in hist:
+            if h[0] == 'S':
+                c.set_correction(h[1].M.tolist(), h[1].t.tolist())
+            elif h[0] == 'W':
+                c = scenes.rewrap(c)
+            if rng.random() < 0.7:
+                _ = c.tanp_center_pixel_scale
+            if rng.random() < 0.3:
+                c = c.copy()
         nx, ny = scenes.image_size(c0)
         x, y = rng.uniform(1, nx - 2), rng.uniform(1, ny - 2)
         case = {'kind': info['kind'], 'info': info, 'history': [h[0] for h in hist],
